@@ -120,19 +120,32 @@ def check_loop(fnode, loop, xvars, accs, dedup_ok=True, extra_sink=None):
             sink_ids.add(nid)
             res.sinks.append(norm(n.ast)[:100])
 
-    def dedup_test(testexpr):
-        """a test relating x-derived value and an accumulator: `x in acc`, `acc.has(x)`, `x == acc[..]`"""
-        for n in _walk_no_nested(testexpr):
-            if isinstance(n, ast.Compare):
-                sides = [n.left] + list(n.comparators)
-                has_x = any(names_in(s) & tainted for s in sides)
-                has_acc = any((names_in(s) & set(a.split(".")[0] for a in accs)) or any(norm(s).startswith(a) for a in accs) for s in sides)
-                if has_x and has_acc:
-                    return True
-            if isinstance(n, ast.Call) and isinstance(n.func, ast.Attribute) and n.func.attr in ("has", "__contains__", "get", "count", "index"):
-                if (target_text_root(n.func.value, accs) or target_root(n.func.value) in accs) and any(names_in(a) & tainted for a in n.args):
-                    return True
-        return False
+    def dedup_atom(n):
+        """an atomic test relating an x-derived value and an accumulator: `x in acc`, `acc.has(x)`, `x == acc[..]`.
+        returns +1 (true means 'already there'), -1 (`not in`: false means already there) or 0"""
+        if isinstance(n, ast.Compare) and len(n.ops) == 1:
+            sides = [n.left] + list(n.comparators)
+            has_x = any(names_in(s) & tainted for s in sides)
+            has_acc = any((names_in(s) & set(a.split(".")[0] for a in accs)) or any(norm(s).startswith(a) for a in accs) for s in sides)
+            if has_x and has_acc:
+                return -1 if isinstance(n.ops[0], (ast.NotIn, ast.NotEq)) else 1
+        if isinstance(n, ast.Call) and isinstance(n.func, ast.Attribute) and n.func.attr in ("has", "__contains__", "count", "index"):
+            if (target_text_root(n.func.value, accs) or target_root(n.func.value) in accs) and any(names_in(a) & tainted for a in n.args):
+                return 1
+        if isinstance(n, ast.UnaryOp) and isinstance(n.op, ast.Not):
+            return -dedup_atom(n.operand)
+        return 0
+
+    def dedup_test(testexpr, label):
+        """is taking branch `label` of this test justified by 'the element is already in the accumulator'?
+        `a or b` taken true needs every disjunct to be such a test; `a and b` taken true needs one."""
+        want = 1 if label == "t" else -1
+        if isinstance(testexpr, ast.BoolOp):
+            parts = [dedup_test(v, label) for v in testexpr.values]
+            if isinstance(testexpr.op, ast.Or):
+                return all(parts) if label == "t" else any(parts)
+            return any(parts) if label == "t" else all(parts)
+        return dedup_atom(testexpr) == want
 
     # enumerate paths from head (t edge) back to head / to loop exit by break, inside the body, avoiding sinks.
     # DFS with path recording; the body is acyclic except for inner loops (visited set per path).
@@ -175,7 +188,7 @@ def check_loop(fnode, loop, xvars, accs, dedup_ok=True, extra_sink=None):
         ok = False
         if dedup_ok:
             for n, lab in p:
-                if n.kind == "test" and n is not head and dedup_test(n.ast.test):
+                if n.kind == "test" and n is not head and lab in ("t", "f") and dedup_test(n.ast.test, lab):
                     ok = True
         (res.exempt if ok else res.bad_paths).append(cfg.describe_path([(n, l) for n, l in p]))
     return res
